@@ -36,6 +36,10 @@ type Resp struct {
 	// ErrAt >= 0: the body reader fails after that many bytes.
 	ErrAt int  `json:"err_at"`
 	Panic bool `json:"panic,omitempty"`
+	// Trailers (scripted responses only): a second header block, with END_STREAM, after the body.
+	Trailers []HF `json:"trailers,omitempty"`
+	// Interim (scripted responses only): fields of a 103 response sent before the final one.
+	Interim []HF `json:"interim,omitempty"`
 }
 
 // Op is one step of a lane of the scripted peer.
@@ -68,6 +72,8 @@ type Op struct {
 	LaneRef int `json:"lane_ref,omitempty"`
 	// TableSize >= 0: emit a dynamic table size update at the start of this block
 	TableSize int `json:"table_size"`
+	// JunkFlags (walks): flag bits with no meaning for the frame type, which the receiver must ignore (RFC 7540 4.1).
+	JunkFlags uint8 `json:"junk_flags,omitempty"`
 }
 
 // Lane is an ordered sequence of ops, normally one request.
